@@ -1,6 +1,7 @@
 package main
 
 import (
+	"context"
 	"fmt"
 	"github.com/gobuffalo/plush/v5"
 	"html/template"
@@ -346,6 +347,28 @@ func init() {
 				e.Distinct(viaHelper)
 				if in.Class == "OK" && (o.Class != "OK" || o.Out != in.Out) {
 					e.Violate("c17-control-in-helper-block", fmt.Sprintf("%s rendered %q (%s %s), the same source inline gives %q", viaHelper, o.Out, o.Class, firstLine(o.Msg), in.Out), map[string]interface{}{"tmpl": viaHelper, "observed": o, "inline": inline})
+				}
+			}
+		}
+		// a value that only the context.Context wrapped by the ROOT context supplies (NewContextWithContext):
+		// a partial, a layout, a replayed block and a default block see it exactly as the inline source does
+		{
+			feeder := func(name string) (string, error) {
+				return map[string]string{"greet": "Hello <%= who %>!", "lay": "<L><%= who %>:<%= yield %></L>"}[name], nil
+			}
+			for _, t := range [][2]string{
+				{`<%= partial("greet") %>`, "Hello mark!"}, {`<%= partial("greet", {layout: "lay"}) %>`, "<L>mark:Hello mark!</L>"},
+				{`<% contentFor("c") { %>[<%= who %>]<% } %><%= contentOf("c") %><%= contentOf("c", {x: 1}) %>`, "[mark][mark]"}, {`<%= contentOf("nodef") { %>(<%= who %>)<% } %>`, "(mark)"},
+				{`<%= for (i) in [1, 2] { %><%= who %><%= i %><% } %>`, "mark1mark2"}, {`<% let f = fn() { return who } %><%= f() %>`, "mark"}, {`<%= who %>`, "mark"},
+			} {
+				root := plush.NewContextWithContext(context.WithValue(context.Background(), "who", "mark"))
+				root.Set("partialFeeder", feeder)
+				out, err := plush.Render(t[0], root)
+				e.rep.Evaluations++
+				e.Count("wrapped-context-value")
+				e.Distinct(t[0])
+				if err != nil || out != t[1] {
+					e.Violate("c17-partial", fmt.Sprintf("%s with who supplied by the wrapped context.Context rendered %q (%v), the inline form gives %q", t[0], out, err, t[1]), map[string]interface{}{"tmpl": t[0]})
 				}
 			}
 		}
